@@ -15,7 +15,7 @@ Lemma c28_lost_lines_orig_refuted_lemma :
     map rets (prods c) = [[false]] /\
     pushed c = [{| q_src := Some (O, O); q_text := [65] |}; {| q_src := None; q_text := [] |}] /\
     file c = [] /\
-    file_complete m ps (observe c) = false.
+    file_complete false m (fun _ _ => 0) ps (observe c) = false.
 Proof.
   exists 2, [[(1, [65])]], [P 0; Stop; Cons; Stop; Stop]. vm_compute. repeat split; reflexivity.
 Qed.
@@ -25,7 +25,7 @@ Qed.
 Lemma c28_return_orig_refuted_lemma :
   exists m ps sched,
     let o := observe (run sched (init m ps)) in
-    file_sound m ps o = true /\ file_complete m ps o = true /\
+    file_sound false m (fun _ _ => 0) ps o = true /\ file_complete false m (fun _ _ => 0) ps o = true /\
     o_rets o = [[false]] /\ rets_ok m ps (o_rets o) = false.
 Proof.
   exists 2, [[(1, [65])]], (sched_for true 0 2 [] [[(1, [65])]]). vm_compute. repeat split; reflexivity.
